@@ -22,6 +22,9 @@ pub struct Case {
     /// per window: 0 = behave, 1 = partial ACK / duplicate a block, 2 = duplicate ACK / swap two blocks
     pub quirks: Vec<u8>,
     pub seed: u64,
+    /// the first reply is "lost": the client sends its request again from the same endpoint
+    #[serde(default)]
+    pub resend_request: bool,
 }
 
 fn run_case(dir: &Path, c: &Case) -> Result<Vec<&'static str>, (String, String)> {
@@ -53,10 +56,24 @@ fn run_case(dir: &Path, c: &Case) -> Result<Vec<&'static str>, (String, String)>
     }
     let cl = Client::new();
     let mut classes = vec![];
+    if c.resend_request && !c.upload && !opts.is_empty() {
+        // the reply to the first request never reaches the client; like any RFC 2347 client it repeats the request
+        cl.send(&wclient::request_bytes(false, "f.bin", &opts), srv.addr);
+        let first = cl.recv(Duration::from_secs(3));
+        if first.is_none() {
+            return Err(("not-accepted".into(), format!("valid request {:?} got no reply", opts)));
+        }
+        classes.push("request-retransmitted");
+    }
     let (neg, first_data) = match wclient::start(&cl, srv.addr, c.upload, "f.bin", &opts, Duration::from_secs(3)) {
         Start::Accepted { neg, first_data } => (neg, first_data),
         other => return Err(("not-accepted".into(), format!("valid request {:?} was answered with {:?}", opts, other))),
     };
+    if c.resend_request && !c.upload && !opts.is_empty() && neg.oack.is_none() {
+        // the client has seen no OACK: whatever DATA arrives must follow RFC 1350 defaults (512-byte blocks),
+        // wclient::start has recorded blksize 512 / windowsize 1 for that case and the slice check below applies them
+        classes.push("data-without-oack-after-retransmitted-request");
+    }
     let blk = neg.blk;
     let n_blocks = data.len() / blk + 1;
     let slice = |abs: usize| -> &[u8] {
@@ -230,7 +247,7 @@ pub fn strategy(upload: bool) -> BoxedStrategy<Case> {
             let b = blk.unwrap_or(512) as usize;
             let blocks = if b > 4096 { blocks.min(3) } else { blocks };
             let len = blocks * b + if r % 5 == 0 { 0 } else { r as usize % b };
-            Case { upload, single, blk, ws, len, quirks, seed }
+            Case { upload, single, blk, ws, len, quirks, seed, resend_request: seed % 5 == 0 }
         })
         .boxed()
 }
